@@ -25,6 +25,56 @@ type queueFacts struct {
 	NameMatch  string            `json:"nameIsMatch"`
 	GroupMatch string            `json:"groupIsMatch"`
 	Filter     string            `json:"filter"` // the inner loop of ScheduledJobs
+	// thread safety of the default queue: every exported method starts with `jq.mtx.Lock(); defer jq.mtx.Unlock()` and mentions the
+	// mutex nowhere else; the heap array is touched by those methods and by helpers that only they call
+	LockShape      map[string]string `json:"lockShape"`
+	DelegateUsers  []string          `json:"delegateUsers"`
+	HelperCallers  map[string]string `json:"helperCallers"` // unexported jobQueue method -> its callers in package quartz
+	QueueMethodSet []string          `json:"queueMethodSet"` // every method declared on jobQueue
+}
+
+// lockShape says "locked" when the body is `recv.mtx.Lock(); defer recv.mtx.Unlock(); …` with no other mention of the mutex.
+func lockShape(p *pkgInfo, fd *ast.FuncDecl) string {
+	if fd == nil || fd.Body == nil || fd.Recv == nil || len(fd.Recv.List) == 0 || len(fd.Recv.List[0].Names) == 0 {
+		return "?"
+	}
+	recv := fd.Recv.List[0].Names[0].Name
+	if len(fd.Body.List) < 2 {
+		return "too-short"
+	}
+	es, ok := fd.Body.List[0].(*ast.ExprStmt)
+	if !ok || p.src(es.X) != recv+".mtx.Lock()" {
+		return "first:" + p.src(fd.Body.List[0])
+	}
+	ds, ok := fd.Body.List[1].(*ast.DeferStmt)
+	if !ok || p.src(ds.Call) != recv+".mtx.Unlock()" {
+		return "second:" + p.src(fd.Body.List[1])
+	}
+	n := 0
+	ast.Inspect(fd.Body, func(x ast.Node) bool {
+		if s, ok := x.(*ast.SelectorExpr); ok && s.Sel.Name == "mtx" {
+			n++
+		}
+		return true
+	})
+	if n != 2 {
+		return fmt.Sprintf("mutex-mentioned-%d-times", n)
+	}
+	// a `go` statement or a function literal would let the array escape the critical section
+	esc := ""
+	ast.Inspect(fd.Body, func(x ast.Node) bool {
+		switch x.(type) {
+		case *ast.GoStmt:
+			esc = "go-statement"
+		case *ast.FuncLit:
+			esc = "function-literal"
+		}
+		return true
+	})
+	if esc != "" {
+		return esc
+	}
+	return "locked"
 }
 
 func singleReturn(p *pkgInfo, fd *ast.FuncDecl) string {
@@ -70,6 +120,74 @@ func extractQueue(repo string, fx *Facts) {
 			}
 			return true
 		})
+	}
+	qf.LockShape = map[string]string{}
+	qf.HelperCallers = map[string]string{}
+	helpers := map[string]bool{}
+	for _, f := range q.files {
+		for _, d := range f.Decls {
+			fd, ok := d.(*ast.FuncDecl)
+			if !ok || fd.Body == nil {
+				continue
+			}
+			onQueue := false
+			if fd.Recv != nil && len(fd.Recv.List) == 1 {
+				t := fd.Recv.List[0].Type
+				if st, ok := t.(*ast.StarExpr); ok {
+					t = st.X
+				}
+				if id, ok := t.(*ast.Ident); ok && id.Name == "jobQueue" {
+					onQueue = true
+				}
+			}
+			if onQueue {
+				qf.QueueMethodSet = append(qf.QueueMethodSet, fd.Name.Name)
+				if fd.Name.IsExported() {
+					qf.LockShape[fd.Name.Name] = lockShape(q, fd)
+				} else {
+					helpers[fd.Name.Name] = true
+				}
+			}
+			uses := false
+			ast.Inspect(fd.Body, func(n ast.Node) bool {
+				if s, ok := n.(*ast.SelectorExpr); ok && s.Sel.Name == "delegate" {
+					uses = true
+				}
+				return true
+			})
+			if uses {
+				name := fd.Name.Name
+				if !onQueue {
+					name = "!" + name // the heap array is touched outside the queue's own methods
+				}
+				qf.DelegateUsers = append(qf.DelegateUsers, name)
+			}
+		}
+	}
+	sort.Strings(qf.DelegateUsers)
+	sort.Strings(qf.QueueMethodSet)
+	for h := range helpers {
+		var callers []string
+		for _, f := range q.files {
+			for _, d := range f.Decls {
+				fd, ok := d.(*ast.FuncDecl)
+				if !ok || fd.Body == nil {
+					continue
+				}
+				called := false
+				ast.Inspect(fd.Body, func(n ast.Node) bool {
+					if s, ok := n.(*ast.SelectorExpr); ok && s.Sel.Name == h {
+						called = true
+					}
+					return true
+				})
+				if called {
+					callers = append(callers, fd.Name.Name)
+				}
+			}
+		}
+		sort.Strings(callers)
+		qf.HelperCallers[h] = strings.Join(callers, ",")
 	}
 	m := load(filepath.Join(repo, "matcher"), "github.com/reugn/go-quartz/matcher")
 	for _, f := range m.files {
@@ -119,5 +237,9 @@ func renderQueue(fx *Facts) string {
 		"def nameIsMatch : String := " + leanStr(qf.NameMatch) + "\n" +
 		"def groupIsMatch : String := " + leanStr(qf.GroupMatch) + "\n" +
 		"def filterBody : String := " + leanStr(qf.Filter) + "\n" +
+		"/-- exported jobQueue method ↦ \"locked\" iff its body is `jq.mtx.Lock(); defer jq.mtx.Unlock(); …` and mentions the mutex nowhere else -/\ndef lockShape : List (String × String) := " + pairs(qf.LockShape) + "\n" +
+		"/-- functions of package quartz that touch the heap array (`!` = not a method of jobQueue) -/\ndef delegateUsers : List String := " + leanStrList(qf.DelegateUsers) + "\n" +
+		"/-- unexported jobQueue method ↦ the functions that call it -/\ndef helperCallers : List (String × String) := " + pairs(qf.HelperCallers) + "\n" +
+		"def queueMethodSet : List String := " + leanStrList(qf.QueueMethodSet) + "\n" +
 		"end Generated.Queue\n"
 }
